@@ -118,6 +118,8 @@ fn judge_exact<E: Exact>(st: &mut Stats, rng: &mut Rng, class: &str, d: &DM<E>, 
             oo => st.violation(&format!("C04:{}:{}:panic", name, t), format!("{} {}; {}", name, oo.describe(), desc())),
         }
     };
+    chk(st, "add(&B,&B):aliased", catch(|| &b1 + &b1), DM::<E>::from_fn(n, n, |i, j| if inband(i, j, m1, m2) { d.a[i][j] + d.a[i][j] } else { E::zero() }));
+    chk(st, "sub(&B,&B):aliased", catch(|| &b1 - &b1), DM::<E>::from_fn(n, n, |_, _| E::zero()));
     chk(st, "neg(&B)", catch(|| -&b1), map(&|a, _| -a));
     chk(st, "neg(B)", catch(|| -b1.clone()), map(&|a, _| -a));
     chk(st, "add(&B,&B)", catch(|| &b1 + &ob), map(&|a, b| a + b));
